@@ -719,11 +719,30 @@ def _sb_called(ex, st, args, kwargs):
 
 def _sb_call_arg(ex, st, args, kwargs):
     """call_arg('Kind.meth', i): i-th argument of the (single) recorded call of that collaborator."""
-    name, i = args
+    name, i = args[0], args[1]
     calls = [ev for ev in st.trace if ev[0] == "call" and ev[1] == name]
+    if len(args) > 2:  # call_arg('Kind.meth', i, nth): of the nth recorded call
+        if not (0 <= args[2] < len(calls)):
+            raise Unsupported(f"call_arg: {len(calls)} recorded calls of {name}, asked for call {args[2]}")
+        yield st, calls[args[2]][3][i]
+        return
     if len(calls) != 1:
         raise Unsupported(f"call_arg: {len(calls)} recorded calls of {name}")
     yield st, calls[0][3][i]
+
+
+def _sb_call_result(ex, st, args, kwargs):
+    """call_result('Kind.meth'): what the (single) recorded call of that function under contract returned."""
+    name = args[0]
+    rets = [ev for ev in st.trace if ev[0] == "ret" and ev[1] == name]
+    if len(args) > 1:  # call_result('Kind.meth', nth)
+        if not (0 <= args[1] < len(rets)):
+            raise Unsupported(f"call_result: {len(rets)} recorded returns of {name}, asked for return {args[1]}")
+        yield st, rets[args[1]][2]
+        return
+    if len(rets) != 1:
+        raise Unsupported(f"call_result: {len(rets)} recorded returns of {name}")
+    yield st, rets[0][2]
 
 
 def _sb_strip_blank(ex, st, args, kwargs):
@@ -779,6 +798,14 @@ def _sb_comp_filter_condition(ex, st, args, kwargs):
     yield st, _comp_filter(st)[3]
 
 
+def _sb_called_before(ex, st, args, kwargs):
+    """called_before('A.f', 'B.g'): both were called exactly once on this path, f before g."""
+    a, b = args
+    ia = [i for i, ev in enumerate(st.trace) if ev[0] == "call" and ev[1] == a]
+    ib = [i for i, ev in enumerate(st.trace) if ev[0] == "call" and ev[1] == b]
+    yield st, len(ia) == 1 and len(ib) == 1 and ia[0] < ib[0]
+
+
 def _sb_call_kwarg_names(ex, st, args, kwargs):
     """call_kwarg_names('name'): the (sorted) keyword names of the single recorded call."""
     (name,) = args
@@ -813,7 +840,7 @@ def _sb_py_int_strip(ex, st, args, kwargs):
     yield st, (SV("str", bm.strip_term(bm.sstr(s), "int")) if is_sym(s) else s.strip(" \t\n\x0b\x0c\r"))
 
 
-SPEC_BUILTINS = {"comp_filter_count": _sb_comp_filter_count, "comp_filter_element": _sb_comp_filter_element, "comp_filter_condition": _sb_comp_filter_condition, "call_kwarg_names": _sb_call_kwarg_names, "digit_at": _sb_digit_at, "char_in_token": _sb_char_in_token, "lstrip_noop": _sb_lstrip_noop, "char_of_slice": _sb_char_of_slice, "find_in": _sb_find_in, "rfind_in": _sb_rfind_in, "split_first": _sb_split_first, "last_of": _sb_last_of, "strip_noop": _sb_strip_noop, "chars_at": _sb_chars_at, "digit_chars": _sb_digit_chars, "leading_zeros": _sb_leading_zeros, "digits_only": _sb_digits_only, "head_of": _sb_head_of, "py_int": _sb_py_int, "py_int_ok": _sb_py_int_ok, "nat_shift": _sb_nat_shift, "char_at": _sb_char_at, "int_of_digits": _sb_int_of_digits, "substr_at": _sb_substr_at, "strip_core": _sb_strip_core, "cut_at": _sb_cut_at, "excludes": _sb_excludes, "int_padded": _sb_int_padded, "py_int_strip": _sb_py_int_strip, "py_repr": _sb_py_repr, "loops_exhausted": _sb_loops_exhausted, "call_kwarg": _sb_call_kwarg, "some": _sb_some, "index_at": _sb_index_at, "strip_blank": _sb_strip_blank, "pos_of": _sb_pos_of, "call_arg": _sb_call_arg, "unmodified": _sb_unmodified, "uf": _sb_uf, "called": _sb_called, "py_isalpha": _sb_py_isalpha, "py_isdigit": _sb_py_isdigit, "int_of_signed": _sb_int_of_signed, "strip_padded": _sb_strip_padded, "strip_unique": _sb_strip_unique, "py_strip": _sb_py_strip, "pad": _sb_pad, "matches": _sb_matches, "nat": _sb_nat, "key_at": _sb_key_at, "val_at": _sb_val_at,
+SPEC_BUILTINS = {"call_result": _sb_call_result, "called_before": _sb_called_before, "comp_filter_count": _sb_comp_filter_count, "comp_filter_element": _sb_comp_filter_element, "comp_filter_condition": _sb_comp_filter_condition, "call_kwarg_names": _sb_call_kwarg_names, "digit_at": _sb_digit_at, "char_in_token": _sb_char_in_token, "lstrip_noop": _sb_lstrip_noop, "char_of_slice": _sb_char_of_slice, "find_in": _sb_find_in, "rfind_in": _sb_rfind_in, "split_first": _sb_split_first, "last_of": _sb_last_of, "strip_noop": _sb_strip_noop, "chars_at": _sb_chars_at, "digit_chars": _sb_digit_chars, "leading_zeros": _sb_leading_zeros, "digits_only": _sb_digits_only, "head_of": _sb_head_of, "py_int": _sb_py_int, "py_int_ok": _sb_py_int_ok, "nat_shift": _sb_nat_shift, "char_at": _sb_char_at, "int_of_digits": _sb_int_of_digits, "substr_at": _sb_substr_at, "strip_core": _sb_strip_core, "cut_at": _sb_cut_at, "excludes": _sb_excludes, "int_padded": _sb_int_padded, "py_int_strip": _sb_py_int_strip, "py_repr": _sb_py_repr, "loops_exhausted": _sb_loops_exhausted, "call_kwarg": _sb_call_kwarg, "some": _sb_some, "index_at": _sb_index_at, "strip_blank": _sb_strip_blank, "pos_of": _sb_pos_of, "call_arg": _sb_call_arg, "unmodified": _sb_unmodified, "uf": _sb_uf, "called": _sb_called, "py_isalpha": _sb_py_isalpha, "py_isdigit": _sb_py_isdigit, "int_of_signed": _sb_int_of_signed, "strip_padded": _sb_strip_padded, "strip_unique": _sb_strip_unique, "py_strip": _sb_py_strip, "pad": _sb_pad, "matches": _sb_matches, "nat": _sb_nat, "key_at": _sb_key_at, "val_at": _sb_val_at,
                  "same_dict": _sb_same_dict}
 
 
@@ -1236,10 +1263,18 @@ def _modifies_addrs(st, spec):
             v = st.deref(v).fields.get(attr)
         if isinstance(v, Ref):
             addrs.add(v.addr)
+    buf = st.fr.env.get("$yield")
+    if isinstance(buf, Ref):
+        addrs.add(buf.addr)  # the output of a generator function: every loop of it may yield
     return addrs
 
 
 def _havoc_heap(ex, st, spec):
+    buf = st.fr.env.get("$yield")
+    if isinstance(buf, Ref):
+        # what earlier iterations yielded is not enumerated: one marker item stands for it (as for `yield from` of an
+        # abstract iterable), nothing can be concluded about the generator's items afterwards
+        st.deref(buf).items[:] = [Opaque("YieldedFrom")]
     for m in spec.modifies:
         base, _, attr = m.partition(".")
         v = st.fr.env.get(base)
@@ -1271,6 +1306,19 @@ def _frame_check(ex, st, before, spec, fname, ordinal, attrs=()):
         if isinstance(v, Ref):
             hf.setdefault(v.addr, set()).add(attr)
     changed = _heap_changed(before, st, _modifies_addrs(st, spec), hf)
+    rest = []
+    for a in changed:
+        o_old, o_new = before[a], st.heap.get(a)
+        if isinstance(o_old, SDict) and isinstance(o_new, SDict):
+            # a symbolic dict outside the loop's frame whose terms differ syntactically: "it still has its content from
+            # the loop head" is an obligation of the iteration (the solver decides whether the difference is real)
+            names = [n for n, v in st.fr.env.items() if isinstance(v, Ref) and v.addr == a] or [f"object@{a}"]
+            ex.oblige(st, f"{fname}.loop{ordinal}.frame[{names[0]}]", "frame",
+                      z3.And([x == y for x, y in zip(o_new.terms(), o_old.terms())]),
+                      info={"clause": f"the dict {names[0]} is not in the loop's 'modifies' and keeps its content across an iteration"})
+        else:
+            rest.append(a)
+    changed = rest
     if changed:
         raise Unsupported(f"{fname}: loop {ordinal} mutates heap objects not listed in Loop.modifies: "
                           f"{[repr(before[a])[:60] for a in changed]}")
@@ -1549,6 +1597,7 @@ def apply_contract(ex: Exec, st: State, f: FuncRef, node, c: Contract, args, kwa
         st.assume(t)
     st.old = saved_old
     if ex.feasible(st.pc):
+        st.trace.append(("ret", c.qualname, result))
         yield st, result
 
 
@@ -1561,6 +1610,10 @@ def _havoc_target(ex, st, env, m):
         dc = st.deref(cur)
         if isinstance(dc, SDict):
             _havoc_dict(st, dc)
+        elif cur is None or isinstance(dc, tuple) or natural_sort(cur) is None:
+            # a field holding None / a tuple / an object reference: afterwards it holds "something" that the callee's
+            # post-condition has to pin down (e.g. `self.pending_tag is None`)
+            o.fields[attr] = fresh(parse_sort("u:Any|None"), attr)
         else:
             o.fields[attr] = fresh(natural_sort(cur), attr)
         return
